@@ -5,7 +5,7 @@ import numpy as np
 import scipy.spatial.distance as SD
 import scipy.special
 from vp.coqrun import clist, parse_zlist, parse_flist
-from vp import srcparams
+from vp import srcparams, link
 from vp.common import REPO
 import umap.distances as D
 
@@ -39,6 +39,9 @@ COVER = {
     "sokalsneath": ("sokal_sneath", "M_sokalsneath"), "sokalmichener": ("sokal_michener", "M_sokalmichener"),
     "yule": ("yule", "M_yule"),
 }
+# registry functions outside the translator's subset (fail-closed; they are tied by the correspondence only)
+NOT_TRANSLATED = {"ll_dirichlet": "array comparisons / helper functions on arrays (approx_log_Gamma) outside the py2coq subset",
+                  "symmetric_kl": "in-place smoothing of argument copies with array slices outside the py2coq subset"}
 DISCRETE_DEFAULT = ("categorical", "hierarchical_categorical", "ordinal", "count", "string")
 BINARY = ("hamming", "jaccard", "dice", "matching", "kulsinski", "rogerstanimoto", "russellrao", "sokalsneath", "sokalmichener", "yule")
 # upper bounds stated by the property ("within its bounds when bounded"); braycurtis only on non-negative data
@@ -589,6 +592,11 @@ def applicable(tag, cls, d, P):
 def run(ctx):
     ctx.check_proofs(["prop/P_C12.v"])
     names = source_tie(ctx)
+    # translation tie: Gallina regenerated from the current umap/distances.py; link theorems src_f = d_f re-checked
+    fns = sorted({COVER[k][0] for k in names if COVER[k][0] not in NOT_TRANSLATED})
+    lres = link.check(ctx, "distances", {fn: "src_%s_eq" % fn for fn in fns}, NOT_TRANSLATED)
+    src_ready = lres.ok and not any("E_distances" in e for e in lres.errors)
+    link_broken = any(b.startswith("link[") for b in ctx.broken)
     dz = srcparams.func_defaults("umap/distances.py", "symmetric_kl").get("z", 1e-11)
     ctx.extra["symmetric_kl_default_z"] = dz
     selftest_trig(ctx)
@@ -686,6 +694,12 @@ def run(ctx):
     def compile_shard(job):
         k, ts = job
         text = HDR + "Definition cases : list case_C12 := %s.\nEval vm_compute in map verdict_C12 cases.\n" % clist(ts)
+        if src_ready:
+            text = text.replace("Import ListNotations.", "From UVS Require Import E_distances.\nImport ListNotations.", 1)
+            text += "Eval vm_compute in map verdict_src_C12 cases.\n"
+            if link_broken:
+                text += "Eval vm_compute in map verdict_src_vs_model cases.\n"
+            return k, link.coq_eval(ctx, lres, "cases_C12_%d" % k, text, what="d_<metric> and translated source (binary64) vs named_distances[name]")
         return k, ctx.coq_eval("cases_C12_%d" % k, text, what="d_<metric> (binary64) vs named_distances[name]")
     with ThreadPoolExecutor(max_workers=int(os.environ.get("VERIF_JOBS", "8"))) as ex:
         results = list(ex.map(compile_shard, jobs))
@@ -702,6 +716,24 @@ def run(ctx):
             ctx.traces += len(info)
             if code != -1:
                 bad.append((k * shard + off, code))
+        if src_ready and len(blocks) > 1:
+            vs = parse_zlist(blocks[1])
+            for off, code in enumerate(vs[:n_here]):
+                desc, info = meta[k * shard + off]
+                ctx.extra["translated_source_evaluations"] = ctx.extra.get("translated_source_evaluations", 0) + len(info)
+                if code != -1 and 0 <= code < len(info):
+                    name, tag, v, ok = info[code]
+                    if ok and (k * shard + off, code) not in bad:
+                        ctx.diff(dict(desc, metric=name), "%s: TRANSLATED SOURCE src_%s (binary64) vs implementation" % (name, COVER[name][0]), impl=v)
+            if link_broken and len(blocks) > 2:
+                for off, code in enumerate(parse_zlist(blocks[2])[:n_here]):
+                    desc, info = meta[k * shard + off]
+                    if code != -1 and 0 <= code < len(info):
+                        name, tag, v, ok = info[code]
+                        key = "link_counterexample_" + COVER[name][0]
+                        if key not in ctx.extra:
+                            ctx.extra[key] = dict(desc, metric=name, note="translated source and hand-written model differ on this input", impl=v)
+                            ctx.diff(dict(desc, metric=name), "%s: translated source differs from the model d_%s on this input" % (name, tag[2:]), impl=v)
     # disagreements: fetch the model's values for the report (one small extra file)
     if bad:
         text = HDR + "Definition cases : list case_C12 := %s.\nEval vm_compute in map values_C12 cases.\n" % clist([terms[i] for i, _ in bad[:40]])
